@@ -56,6 +56,8 @@ def base_specs(draw):
 def raw_args(m):
     import sympy
 
+    m = dict(m, symbol_keyed=[])  # faults address readings by their string names
+
     tab = models.symtab(m)
     tab["__undeclared__"] = sympy.Symbol("undeclared_zz")
     c = m["containers"]
@@ -274,7 +276,7 @@ def case(spec, ctx):
             else:
                 check_valid(ctx, m, wd)
             return
-        with ctx.watchdog(60):
+        with ctx.watchdog(60, "fault-enumeration-timeout"):
             check_valid(ctx, m, wd)
             faults = all_faults(m)
             for f in faults:
